@@ -42,6 +42,32 @@ var allMechs = map[string]sasl.Mechanism{
 	"SCRAM-SHA-1-PLUS":   sasl.ScramSha1Plus,
 	"SCRAM-SHA-256-PLUS": sasl.ScramSha256Plus,
 }
+// xPlainPlus: an application's own mechanism that follows the "-PLUS" naming
+// convention (PLAIN's exchange under another name; unlike the SCRAM variants
+// it has a working receiving side)
+const xPlainPlusName = "X-VERIF-PLAIN-PLUS"
+
+var xPlainPlus = sasl.Mechanism{Name: xPlainPlusName, Start: sasl.Plain.Start, Next: sasl.Plain.Next}
+
+func recvMech(name string) sasl.Mechanism {
+	if name == xPlainPlusName {
+		return xPlainPlus
+	}
+	return allMechs[name]
+}
+
+// offeredIn: the mechanism names of the <mechanisms/> list in what the
+// receiving side has written so far
+func offeredIn(out []byte) map[string]bool {
+	names := map[string]bool{}
+	for _, part := range bytes.Split(out, []byte("<mechanism>"))[1:] {
+		if i := bytes.Index(part, []byte("</mechanism>")); i >= 0 {
+			names[string(part[:i])] = true
+		}
+	}
+	return names
+}
+
 var mechNames = []string{"PLAIN", "SCRAM-SHA-1", "SCRAM-SHA-256", "SCRAM-SHA-1-PLUS", "SCRAM-SHA-256-PLUS"}
 
 func header(from, to, id string) string {
@@ -496,16 +522,21 @@ var rKinds = []string{"auth", "auth", "auth", "auth-malformed", "auth-empty", "a
 func genRCase(t *rapid.T) rcase {
 	var c rcase
 	c.mechs = []string{"PLAIN"}
-	if rapid.IntRange(0, 9).Draw(t, "plusConfigured") == 0 {
+	switch rapid.IntRange(0, 9).Draw(t, "plusConfigured") {
+	case 0:
 		// a receiving entity that (unwisely: the SASL dependency has no server
 		// side for them and panics "not implemented") also lists the channel
 		// binding variants; nobody is authenticated through them
 		c.mechs = append(c.mechs, "SCRAM-SHA-256-PLUS", "SCRAM-SHA-1-PLUS")
+	case 1, 2:
+		c.mechs = append(c.mechs, xPlainPlusName)
+	case 3:
+		c.mechs = []string{xPlainPlusName, "PLAIN"}
 	}
 	n := rapid.IntRange(1, 5).Draw(t, "nsteps")
 	for i := 0; i < n; i++ {
 		s := rstep{kind: rapid.SampledFrom(rKinds).Draw(t, "kind")}
-		s.mech = rapid.SampledFrom([]string{"PLAIN", "PLAIN", "PLAIN", "SCRAM-SHA-1", "X-UNKNOWN", "", "plain", "ANONYMOUS", "SCRAM-SHA-256-PLUS", "SCRAM-SHA-1-PLUS"}).Draw(t, "mech")
+		s.mech = rapid.SampledFrom([]string{"PLAIN", "PLAIN", "PLAIN", "SCRAM-SHA-1", "X-UNKNOWN", "", "plain", "ANONYMOUS", "SCRAM-SHA-256-PLUS", "SCRAM-SHA-1-PLUS", xPlainPlusName, xPlainPlusName}).Draw(t, "mech")
 		s.user = rapid.SampledFrom([]string{"juliet", "juliet", "romeo", ""}).Draw(t, "user")
 		s.pass = rapid.SampledFrom([]string{password, password, "wrong", ""}).Draw(t, "pass")
 		s.verdict = rapid.IntRange(0, 2).Draw(t, "verdict") > 0
@@ -539,7 +570,8 @@ type rresult struct {
 	panicked  string
 	out       []byte
 	// model
-	wantAuthn bool // must authenticate
+	unoffered []string // mechanisms the peer named that are configured but were not in the list the receiver wrote
+	wantAuthn bool     // must authenticate
 	mayAuthn  bool // may authenticate (degenerate but accepted credentials)
 }
 
@@ -549,7 +581,7 @@ func runReceiver(c rcase) rresult {
 	verdictFor := false
 	var mechs []sasl.Mechanism
 	for _, m := range c.mechs {
-		mechs = append(mechs, allMechs[m])
+		mechs = append(mechs, recvMech(m))
 	}
 	phase := "header1"
 	// reference model of the profile on the receiving side
@@ -586,7 +618,12 @@ func runReceiver(c rcase) rresult {
 						configured = true
 					}
 				}
-				if configured && s.mech == "PLAIN" && payloadOK && s.verdict && !c.nilPerm {
+				// (offered: named in the <mechanisms/> list this receiving entity wrote)
+				if configured && !offeredIn(p.Conn.Output())[s.mech] {
+					res.unoffered = append(res.unoffered, s.mech)
+					configured = false
+				}
+				if configured && (s.mech == "PLAIN" || s.mech == xPlainPlusName) && payloadOK && s.verdict && !c.nilPerm {
 					res.mayAuthn = true
 					if s.user != "" && s.pass != "" && s.authz == "" {
 						res.wantAuthn = true
@@ -682,6 +719,9 @@ func checkReceiver(t failer, c rcase) rresult {
 		// defect outside the repository; what matters here is that nobody was
 		// told they are authenticated)
 		ev.Class("receiver-plus-mechanism-panics-in-the-dependency")
+	}
+	if r.authn && !r.mayAuthn && len(r.unoffered) > 0 {
+		fail("marked authenticated through a mechanism (%v) that this receiving entity had not offered in its <mechanisms/> list", r.unoffered)
 	}
 	if r.authn && !r.mayAuthn {
 		fail("marked authenticated although no completed exchange with accepted credentials took place")
